@@ -530,6 +530,12 @@ func TestWitnessTwoSourceOperators(t *testing.T) {
 			}
 			return out
 		}},
+		{"ZipVariadic", func(a, b Observable[int]) Observable[string] {
+			return Map(func(v []int) string { return fmt.Sprintf("(%d,%d)", v[0], v[1]) })(Zip(a, b))
+		}, nil},
+		{"ZipAll", func(a, b Observable[int]) Observable[string] {
+			return Map(func(v []int) string { return fmt.Sprintf("(%d,%d)", v[0], v[1]) })(ZipAll[int]()(Of(a, b)))
+		}, nil},
 		{"CombineLatest2", func(a, b Observable[int]) Observable[string] {
 			return Map(func(v interface{ Unpack() (int, int) }) string { x, y := v.Unpack(); return fmt.Sprintf("(%d,%d)", x, y) })(
 				Map(func(v any) interface{ Unpack() (int, int) } { return v.(interface{ Unpack() (int, int) }) })(ow2Any(CombineLatest2(a, b))))
@@ -618,6 +624,11 @@ func TestWitnessTwoSourceOperators(t *testing.T) {
 	OnUnhandledError = IgnoreOnUnhandledError
 	defer func() { OnUnhandledError = prev }()
 	scripts := ow2Scripts(5)
+	for i := range ops {
+		if ops[i].ref == nil {
+			ops[i].ref = ops[0].ref // the variadic forms of Zip have the definition of Zip2
+		}
+	}
 	for _, o := range ops {
 		o := o
 		t.Run(o.name, func(t *testing.T) {
@@ -660,6 +671,7 @@ func TestWitnessTwoSourceOperators(t *testing.T) {
 				t.Fatalf("%d mismatches", fails)
 			}
 			fmt.Printf("REPLAY-OK %s\n", o.name)
+			fmt.Printf("BOUNDED-CASES %d\n", len(scripts))
 		})
 	}
 }
